@@ -116,7 +116,9 @@ func FilterPodsForOrderedUpdate(pods []*corev1.Pod, ctx *batchcontext.BatchConte
 		if !util.IsConsistentWithRevision(pod.GetLabels(), ctx.UpdateRevision) {
 			continue
 		}
-		if getPodOrdinal(pod) >= partition {
+		// a pod that already carries this release's rollout-id must reach the patcher: it consumes its batch's budget
+		// there (the unordered variant keeps such pods for the same reason)
+		if getPodOrdinal(pod) >= partition || pod.Labels[v1beta1.RolloutIDLabel] == ctx.RolloutID {
 			highPriorityPods = append(highPriorityPods, pod)
 		} else {
 			lowPriorityPods = append(lowPriorityPods, pod)
